@@ -85,26 +85,170 @@ class Skel:
             self.progress_only = {h for h in snaps if uses[h] == cmps[h] and uses[h] > 0}
         return self.norm(self.ops(it["body"]))
 
+    # ---- canonical branch form ------------------------------------------------------------------------------------------------------
+    # `if c { return .. } REST`, `if !c { REST } else { return .. }`, `match c { true => REST, false => break }` are one production: a test
+    # with a continuing and a leaving branch.  Canonical form: the leading `!` of a condition is removed by exchanging the branches, and what
+    # follows an `if` with exactly one leaving branch is moved into its continuing branch.  Polarity stays visible structurally (then / else).
+    as_branch = staticmethod(hir.as_branch)
+    leaves = staticmethod(hir.leaves)
+
+    COMPLEMENT = {"Some": "None", "None": "Some", "Ok": "Err", "Err": "Ok"}
+
+    @staticmethod
+    def arm_key(pat, guard=None):
+        """sort key of a match arm whose pattern is a plain (or-)variant pattern without guard, else None"""
+        if guard:
+            return None
+        try:
+            v = hir.pat_variants(pat)
+        except hir.Unrecognised:
+            return None
+        if v is None:
+            return None
+        return tuple(sorted(str(x) for x in v))
+
+    def match_ops(self, sc, arms):
+        """arms: [(key or None, ops)].  Arms with disjoint variant patterns are order-free: they are sorted by variant name (a trailing
+        wildcard / binding arm stays last); any other match keeps its source order."""
+        keys = [k for k, o in arms]
+        head = arms[:-1] if (keys and keys[-1] is None) else arms
+        if head and all(k is not None for k, o in head) and len(set(k for k, o in head)) == len(head):
+            arms = sorted(head, key=lambda ko: ko[0]) + arms[len(head):]
+        arms = [self.norm(o) for k, o in arms]
+        if not any(arms):
+            return sc
+        return sc + [("match", tuple(arms))]
+
+    def branch_ops(self, br, rest):
+        c, t, el = br
+        tt = self.ops(t) if t is not None else []
+        ee = self.ops(el) if el is not None else []
+        if rest is not None:
+            tl, el_ = self.leaves(t), self.leaves(el)
+            if tl and not el_:
+                ee = ee + rest
+            elif el_ and not tl:
+                tt = tt + rest
+        # `if let P = x { A } else { B }` is `match x { P => A, _ => B }`
+        if c.get("k") == "LetExpr":
+            k = self.arm_key(c["pat"])
+            if k is not None:
+                other = self.COMPLEMENT.get(k[0]) if len(k) == 1 else None
+                return self.match_ops(self.ops(c["init"]), [(k, tt), ((other,) if other else None, ee)])
+        return [("if", self.norm(self.ops(c)), self.norm(tt), self.norm(ee))]
+
+    # ---- independent pure bindings are order-free -------------------------------------------------------------------------------------
+    PURE_STD = {"chars", "count", "len", "clone", "to_owned", "to_string", "iter", "into_iter", "is_empty", "as_str", "as_ref", "as_slice", "deref",
+                "unwrap_or", "unwrap_or_default", "ok_or", "ok", "map", "filter", "collect", "enumerate", "rev", "zip", "skip", "take", "cloned", "copied",
+                "first", "last", "get", "contains", "starts_with", "ends_with", "new", "from", "into", "default", "format", "must_use", "new_v1",
+                "new_const", "new_display", "new_debug", "Some", "Ok", "Err", "Box", "index", "branch", "from_residual", "from_output", "eq", "ne",
+                "min", "max", "is_some", "is_none", "as_deref", "to_vec", "trim", "char_indices", "position", "find", "any", "all", "with_capacity"}
+
+    def _mir_index(self):
+        if not hasattr(self.f, "_norm_mir"):
+            self.f._norm_mir = {self.f.norm(p): b for p, b in self.f.mir.items()}
+        return self.f._norm_mir
+
+    def pure(self, e):
+        """no call in `e` can write anything its caller can see: crate functions without `&mut` parameter, std functions from PURE_STD; no assignment"""
+        if e is None:
+            return True
+        for n in hir.walk(e):
+            k = n.get("k")
+            if k in ("Assign", "AssignOp", "Ret", "Break", "Continue", "Loop"):
+                return False
+            if k in ("Call", "MethodCall"):
+                d = hir.callee(n)
+                b = self._mir_index().get(self.f.norm(d)) if d else None
+                if b is not None:
+                    if any(b["locals"][i]["ty"].startswith("&mut") for i in range(1, b["arg_count"] + 1)):
+                        return False
+                    continue
+                nm = hir.callee_name(n)
+                if nm not in self.PURE_STD:
+                    return False
+                if k == "MethodCall" and nm in ("new", "from", "into", "default", "get", "find", "position", "any", "all", "map", "filter"):
+                    pass
+        return True
+
+    def canon_order(self, stmts):
+        """consecutive `let`s with pure, mutually independent initialisers commute: each run is put into a canonical order (dependencies
+        first, ties broken by the statements' own skeleton), so exchanging two of them is not a skeleton difference"""
+        def bound(p, acc):
+            if p.get("k") == "Binding":
+                acc.add(p.get("hid"))
+                if p.get("sub"):
+                    bound(p["sub"], acc)
+            for key in ("pat",):
+                if isinstance(p.get(key), dict):
+                    bound(p[key], acc)
+            for key in ("pats",):
+                for q in p.get(key) or []:
+                    bound(q, acc)
+            for fd in p.get("fields") or []:
+                if isinstance(fd, dict) and isinstance(fd.get("pat"), dict):
+                    bound(fd["pat"], acc)
+            return acc
+
+        def used(e):
+            return {n["path"].get("hid") for n in hir.walk(e) if n.get("k") == "Path" and n["path"].get("res") == "local"}
+
+        def sort_run(run):
+            if len(run) < 2:
+                return run
+            info = [(bound(s["pat"], set()), used(s["init"]), repr(self.norm(self.ops(s["init"])))) for s in run]
+            done, order = set(), []
+            while len(order) < len(run):
+                ready = [i for i in range(len(run)) if i not in done and not any(j not in done and (info[j][0] & info[i][1]) for j in range(i))]
+                i = min(ready, key=lambda x: (info[x][2], x))
+                done.add(i)
+                order.append(run[i])
+            return order
+
+        out, run = [], []
+        for s in stmts:
+            if s["k"] == "Let" and s.get("init") is not None and not s.get("els") and self.pure(s["init"]) \
+                    and not (self.as_branch(s["init"]) and self.leaves(self.as_branch(s["init"])[1]) != self.leaves(self.as_branch(s["init"])[2])):
+                run.append(s)
+            else:
+                out += sort_run(run) + [s]
+                run = []
+        return out + sort_run(run)
+
+    def block_ops(self, stmts, tail, ordered=False):
+        out = []
+        if not ordered:
+            stmts = self.canon_order(stmts)
+        for i, s in enumerate(stmts):
+            if s["k"] == "Let":
+                br = self.as_branch(s.get("init")) if not s.get("els") else None
+                if br and self.leaves(br[1]) != self.leaves(br[2]):
+                    # `let x = match c { true => V, false => return .. };` == `if !c { return .. } let x = V;`
+                    rest = self.block_ops(stmts[i + 1:], tail, True)
+                    return out + self.branch_ops(br, rest)
+                out += self.ops(s.get("init"))
+                ip = field_path(strip(s["init"])) if s.get("init") else None
+                if ip and ip[0] in ("self", "parser") and ip[-1] in ("head", "len_env") and s["pat"]["k"] == "Binding" \
+                        and s["pat"].get("hid") not in self.progress_only:
+                    out.append(("snapshot", ".".join(("self",) + tuple(ip[1:]))))
+                if s.get("els"):
+                    out += [("else", self.norm(self.ops(s["els"])))]
+            elif s["k"] in ("Semi", "Expr"):
+                br = self.as_branch(s["expr"])
+                if br and self.leaves(br[1]) != self.leaves(br[2]):
+                    rest = self.block_ops(stmts[i + 1:], tail, True)
+                    return out + self.branch_ops(br, rest)
+                out += self.ops(s["expr"])
+        out += self.ops(tail)
+        return out
+
     def ops(self, e):
         if e is None:
             return []
         e = strip(e)
         k = e["k"]
         if k == "Block":
-            out = []
-            for s in e["stmts"]:
-                if s["k"] == "Let":
-                    out += self.ops(s.get("init"))
-                    ip = field_path(strip(s["init"])) if s.get("init") else None
-                    if ip and ip[0] in ("self", "parser") and ip[-1] in ("head", "len_env") and s["pat"]["k"] == "Binding" \
-                            and s["pat"].get("hid") not in self.progress_only:
-                        out.append(("snapshot", ".".join(("self",) + tuple(ip[1:]))))
-                    if s.get("els"):
-                        out += [("else", self.norm(self.ops(s["els"])))]
-                elif s["k"] in ("Semi", "Expr"):
-                    out += self.ops(s["expr"])
-            out += self.ops(e.get("expr"))
-            return out
+            return self.block_ops(e["stmts"], e.get("expr"))
         if k == "MethodCall":
             recv = strip(e["recv"])
             rp = field_path(recv)
@@ -137,6 +281,8 @@ class Skel:
             for a in e["args"]:
                 inner += self.ops(a)
             if nm == "branch" and len(e["args"]) == 1:
+                if strip(e["args"][0]).get("inlined_from"):
+                    return inner          # `new_helper(..)?`: the helper's body stands here, its own returns are the exits
                 return inner + [("?",)]
             if MOD in d and nm in ("err",):
                 return inner + [("err",)]
@@ -144,10 +290,7 @@ class Skel:
                 return inner + [("call", nm) + tuple(argkey(a) for a in e["args"] if field_path(a) != ("self",))]
             return inner
         if k == "If":
-            c = self.ops(e["cond"])
-            t = self.ops(e["then"])
-            el = self.ops(e.get("else")) if e.get("else") else []
-            return [("if", self.norm(c), self.norm(t), self.norm(el))]
+            return self.branch_ops(self.as_branch(e), None)
         if k == "Match":
             sc = self.ops(e["scrut"])
             src = e.get("source", "")
@@ -159,28 +302,14 @@ class Skel:
                     body += self.ops(a["body"])
                 return sc + [("loop", self.norm(body))]
             # `match cond { true => A, false => B }` is the same production as `if cond { A } else { B }`
-            bools = {}
-            for a in e["arms"]:
-                q = a["pat"]
-                if q.get("k") == "Expr" and q["expr"].get("k") == "Lit" and isinstance(q["expr"]["lit"].get("v"), bool) and not a.get("guard"):
-                    bools[q["expr"]["lit"]["v"]] = a
-                elif q.get("k") == "Wild" and len(e["arms"]) == 2 and not a.get("guard"):
-                    bools.setdefault("_", a)
-            if len(e["arms"]) == 2 and (set(bools) == {True, False} or (len(bools) == 2 and "_" in bools)):
-                t_arm = bools.get(True) or bools.get("_")
-                f_arm = bools.get(False) or bools.get("_")
-                if True not in bools:
-                    t_arm = bools["_"]
-                if False not in bools:
-                    f_arm = bools["_"]
-                return [("if", self.norm(sc), self.norm(self.ops(t_arm["body"])), self.norm(self.ops(f_arm["body"])))]
+            br = self.as_branch(e)
+            if br:
+                return self.branch_ops(br, None)
             arms = []
             for a in e["arms"]:
                 g = self.ops(a["guard"]) if a.get("guard") else []
-                arms.append(self.norm(g + self.ops(a["body"])))
-            if not any(arms):
-                return sc
-            return sc + [("match", tuple(arms))]
+                arms.append((self.arm_key(a["pat"], a.get("guard")), g + self.ops(a["body"])))
+            return self.match_ops(sc, arms)
         if k == "Loop":
             return [("loop", self.norm(self.ops(e["body"])))]
         if k == "Ret":
